@@ -252,7 +252,7 @@ def check(ctx, run):
     run.rule("R4", "list surgery folded over every list of 0..4 records x every match pattern: clearAllAccounting removes exactly the matching records and keeps the others in order; removeNode unlinks exactly the addressed record; retrieve/total/first-from agree with the list", floor=90, exhaustive=True)
     run.rule("R5", "bookkeeping pairing: allocMemory stores one record on success and none on failure; deallocMemory removes first; reallocMemory removes then stores once on success", floor=5)
     run.rule("R6", "stamping: a new record carries the current period, allocation stage, sequence number, size, file and line", floor=5)
-    run.rule("R7", "report totals: reportMemoryLeak counts every leak it is given (also when the text buffer is full); the report walk uses one period from first to next and is bracketed by start/stop", floor=4)
+    run.rule("R7", "report totals: the leak report folded over scripted table walks (0..3 leaks x allocator kinds x buffer full or not x two periods): the walk asks first/next with the report's period, every leak is listed once with its own record values, the total line states the number of leaks walked also when the text buffer is full", floor=4)
     run.rule("R8", "routing: every global operator new/delete overload forwards to the slot of its own family; the tracked functions use the allocator of their family and separate records exactly for the malloc family; slot switch/save/restore tables", floor=80)
 
     # ---------------- R1 / R2 -----------------------------------------------
@@ -415,24 +415,9 @@ def check(ctx, run):
     stamping_rule(prog, run, "R6")
 
     # ---------------- R7 ----------------------------------------------------
-    rl = prog.fn("MemoryLeakOutputStringBuffer::reportMemoryLeak")
-    run.analysed(rl)
-    cnts = count_on_paths(prog, rl, enumerate_paths(rl), lambda n: n["k"] == "UnaryOperator" and n.get("op") == "++" and render(rl, n["c"][0]) == "total_leaks_")
-    run.ob("R7", "reportMemoryLeak counts the leak on every path", rl.site, bool(cnts) and all(c == 1 for c in cnts), witness=cnts,
-           what="" if cnts and all(c == 1 for c in cnts) else "leaks whose text no longer fits are not counted: the reported total disagrees with the outstanding set")
-    cr = prog.fn(DET + "::ConstructMemoryLeakReport")
-    run.analysed(cr)
-    pp = cr.params[0]["name"]
-    cs = [render(cr, c) for c in cr.calls()]
-    need = ["memoryTable_.getFirstLeak(%s)" % pp, "outputBuffer_.startMemoryLeakReporting()", "outputBuffer_.reportMemoryLeak(leak)", "memoryTable_.getNextLeak(leak, %s)" % pp, "outputBuffer_.stopMemoryLeakReporting()"]
-    ok = all(cs.count(x) == 1 for x in need) and cs.index(need[1]) < cs.index(need[2]) < cs.index(need[4])
-    run.ob("R7", "the report walks first/next with one period and is bracketed by start/stop", cr.site, ok, witness=cs)
-    sr = prog.fn("MemoryLeakOutputStringBuffer::startMemoryLeakReporting")
-    a = [(l, render(sr, r)) for l, r, n in assignments(sr)]
-    run.ob("R7", "a report starts from a zero total", sr.site, ("total_leaks_", "0") in a, witness=a)
-    sp_ = prog.fn("MemoryLeakOutputStringBuffer::stopMemoryLeakReporting")
-    cs = [render(sp_, c) for c in sp_.calls() if "addMemoryLeakFooter" in render(sp_, c)]
-    run.ob("R7", "the footer prints the counted total", sp_.site, cs == ["addMemoryLeakFooter(total_leaks_)"], witness=cs)
+    from .shared import report_rules
+    LEN_ = [e["v"] for en in prog.enums.values() for e in en["enumerators"] if e["name"] == "SIMPLE_STRING_BUFFER_LEN"]
+    report_rules(prog, run, "R7", "R7", LEN_[0] if LEN_ else 0)
     tl = prog.fn(DET + "::totalMemoryLeaks")
     rets = [render(tl, tl.node(n.get("value"))) for n in tl.walk() if n["k"] == "ReturnStmt"]
     run.ob("R7", "totalMemoryLeaks asks the table with the caller's period", tl.site, rets == ["memoryTable_.getTotalLeaks(%s)" % tl.params[0]["name"]], witness=rets)
